@@ -15,7 +15,7 @@ CLAIMED = {
             'of coordinate_to_sliding_bin_locations are exactly the windows containing the coordinate, coordinate_to_bins '
             'returns each such window once (first-principles postconditions from the property statement).',
             'A3 exact rational model of float division/np.ceil/np.floor/int() for |operands|<2**53; z3/cvc5 soundness; '
-            'VC generator (guarded by CPython cross-check and canary obligations). The bin-increment block of assignReads is proved for the non-sliding case (exactly the bin containing the coordinate, bins beyond the contig skipped unless keepOverBounds) using the coordinate_to_bins contract at the call site; the sliding increment loop of assignReads is not under contract.',
+            'VC generator (guarded by CPython cross-check and canary obligations). The bin-increment of assignReads is proved for the non-sliding case (exactly the bin containing the coordinate, bins beyond the contig skipped unless keepOverBounds) and for the sliding loop (loop invariant w.r.t. one arbitrary table cell: every window returned by coordinate_to_bins that lies inside the contig is credited the weight exactly once, nothing else changes), both using the coordinate_to_bins contract at the call site; the composition "returned windows = windows containing the coordinate" + "each returned window credited once" is the property and is not a separate discharged lemma.',
             '5/C10'),
     'C17': ('Unbounded proof (loop invariants, loop-body contracts, callee contracts) that fill_range yields exactly the '
             'spec bins, trim_rangelist keeps exactly the clipped non-empty intersections in order, and blacklisted_binning '
@@ -32,7 +32,7 @@ CLAIMED = {
             'record passes the property\'s rule and start <= site < end, nothing else changes), of read_counts (iff), of '
             'generate_jobs (job intervals tile each contig), and of the lemma that sites owned by different jobs fall into '
             'different bins (so the merge never meets a cell twice): together the matrix is independent of bins_per_job.',
-            'A4 pysam fetch returns each overlapping record once; sites further than max_fragment_size from the alignment are '
+            'A4 pysam fetch returns each overlapping record once; the fetch window handed to pysam is proved to overlap every record whose site is owned by the job and lies within max_fragment_size of its alignment (ghost record obligation); sites further away are '
             'outside the claim; obtain_counts merge loop and _generate_count_dict not under contract (the lemma states what '
             'they need); mate_iter verified only for <=2 (thorough: 3) fetched records with symbolic flags/names (bounded '
             'stand-in) under well-formed primary records (A7); worker schedules: A6.',
@@ -41,7 +41,7 @@ CLAIMED = {
             'selects a strictly increasing, in-range list of indices of ejectable molecules only, and after the k-th pop the '
             'molecule removed and emitted is exactly the one selected (loop invariants over a symbolic buffer, all buffer sizes '
             'and selections); Molecule.can_be_yielded has the property\'s own postcondition: when it answers True no fragment '
-            'emitted later in coordinate-sorted order can have the molecule\'s site (no late join).',
+            'emitted later in coordinate-sorted order can have the molecule\'s site (no late join); Molecule._add_fragment keeps the span the hull of the member fragments (what can_be_yielded reasons with); the per-fragment assignment block (both pooling methods, exact and arbitrary UMI relation) places a fragment in exactly one molecule.',
             'A4 emission order of pysamiterators.MatePairIterator; fragment length < cache_size/2 and >= read length; assignment '
             'radius 0; allele clustering off; conservation of fragments (inv.conservation) and the schedule-freedom lemma for '
             'whole runs are argued in DESIGN 5/C07 from these obligations, not discharged as one VC.',
@@ -59,7 +59,7 @@ CLAIMED = {
             '--multiprocess) puts every contig with reads into exactly one job and the unmapped bin into exactly one job, for '
             'any number/order/size of contigs (loop invariant under a counting abstraction w.r.t. an arbitrary contig); '
             'run_tagging_tasks accumulates the molecule count of every task and keeps the job\'s output file iff any task '
-            'wrote a molecule.',
+            'wrote a molecule; in the single-process loop the read group of every fragment of every written molecule is declared (and never removed) in the dict handed to the header writer; sort_and_index returns normally only after a sort attempt succeeded and the index was written.',
             'A4: pysam fetch/sort/index/merge, MatePairIterator pairing and idxstats are assumed (record fields unchanged by '
             'I/O, coordinate sorting, index, any worker completion order are NOT decided here - DESIGN section 7); '
             'run_tagging_task is an assumed contract at its call site; MoleculeIterator fragment conservation and '
@@ -70,7 +70,7 @@ CLAIMED = {
             'sorted_bam_file context manager executed inline, every external step allowed to raise at every call and for any '
             'number of molecules via a loop contract) and of the merge/cleanup/status tail of tag_multiome_multi_processing: '
             'the status says success only when the output is finalised; and run_tagging_tasks returns normally only if no task '
-            'failed (failures propagate through the real context manager).',
+            'failed (failures propagate through the real context manager); sort_and_index itself (retry over three temp locations) returns only with a sorted and indexed output and removes the unsorted input only after that.',
             'Exceptions at call boundaries stand for failures/kills between steps; a kill inside one external call, the '
             'atomicity of write_status and --cluster mode are outside; the initial "unfinished" status and the absence of other '
             'status writes before the multiprocess tail are assumed (the latter checked syntactically); A4 for sort/index/merge.',
@@ -100,21 +100,21 @@ CLAIMED = {
             'loading a missing contig exactly once in lazy mode (so eager and lazy answers coincide); and a loop-body contract on '
             'the real fetchChromosome: for an arbitrary VCF record and arbitrary state left by earlier records, the site is kept '
             'iff it is an informative single-nucleotide site with every selected sample called and no ignored conversion, and the '
-            'stored map lists under each base exactly the selected samples whose genotype contains it.',
+            'stored map lists under each base exactly the selected samples whose genotype contains it; write_cache publishes atomically (typestate monitor after every statement and on every exceptional edge with failing open/write/rename: a file under the final cache name is complete).',
             'pysam.VariantFile (parsing, genotype access, fetch) assumed; records modelled with 2 samples x 2 alleles (symbolic '
             'allele strings; missing-allele pattern, sample selection, ignored conversions as case parameters); phased mode only; '
-            'on-disk cache codec (write_cache/read_cached), cache atomicity and contig access orders beyond one lookup are not '
-            'under contract.',
+            'on-disk cache codec round trip (write_cache -> read_cached), region-limited cache reads and contig access orders beyond one lookup are not '
+            'under contract; os.rename atomic (A4).',
             '5/C18'),
     'C11': ('Proof for an arbitrary read (symbolic flags, MAPQ, CIGAR text, tags mp/NM/XA/RR/NH/SM/DS; mapped and unmapped) and '
             'arbitrary option values that read_should_be_counted answers True iff every selected filter of the statement passes '
             'and never raises; that assignReads changes no cell when the read is filtered and otherwise exactly one cell - the '
             'read\'s own sample and feature - by the documented weight (1, or 1/2 for a paired read with mapped mate unless '
-            'division is off or a mate is selected; divided by the number of XA hits or NH); and, with -bin, exactly the bin '
-            'containing the coordinate.',
+            'division is off or a mate is selected; divided by the number of XA hits or NH); with -bin exactly the bin '
+            'containing the coordinate, and with -sliding every returned window inside the contig exactly once (shared with C10).',
             'pysam record stub (closed world of tags); the XA alt-contig scan is an opaque predicate; len(XA.split(";")) an '
             'uninterpreted count; blacklist with one interval; assignReads verified for joined feature reference_name / sample tag '
-            'SM, no bed file, no byValue, no splitFeatures, non-sliding bins; create_count_table iteration over BAM files: A4.',
+            'SM, no bed file, no byValue, no splitFeatures; create_count_table iteration over BAM files: A4.',
             '5/C11'),
     'C04': ('The phred <-> header-safe quality codec is decided exhaustively over all 94 phred characters (total, one safe '
             'letter each, identity on phred 0..51, saturating above). For tag values that are arbitrary header-safe strings '
@@ -123,23 +123,21 @@ CLAIMED = {
             'unchanged and nothing else (segment-structural split/join); QueryNameFlagger.digest restores barcode, raw barcode, '
             'cell index, UMI, decoded UMI qualities, library, strategy, index, Illumina coordinates, sets SM=library_cellindex, '
             'MI=barcode+UMI+index, the read name and RG, and decodes every read from its own name only (two reads with different '
-            'field sets, both orders).',
+            'field sets, both orders, and a fragment whose first mate is absent).',
             'fqSafe (a regular expression) is assumed to be the identity on header-safe strings; the structural string rules '
             '(split/replace/strip on concatenations whose atoms exclude the separator) are trusted engine rules; phred decoding '
             'inside digest is an uninterpreted function linked to the exhaustive codec unit; representative tag sets; pysam record '
             'stub; Illumina header variants other than the scmo k:v format are not under contract.',
             '5/C04'),
-    'C02': ('For 18 registered strategies (every class that uses UmiBarcodeDemuxMethod.demultiplex directly or through a thin '
-            'override: CEL-Seq1/2 incl. swapped mates, NLAIII 96/384 paired and single end, MspJI, scartrace R1/R2/R2RP4, 10x, '
-            'scCHIC and scCHIC direct ligation, DamID2) the real constructor and the real demultiplex are executed on read pairs '
+    'C02': ('All 28 strategy classes registered in the loader. For 21 contiguous-layout classes (CEL-Seq1/2 incl. swapped mates, NLAIII 96/384 paired and single end, MspJI, scartrace R1/R2/R2RP4, 10x, '
+            'scCHIC, scCHIC direct ligation paired and single end, DamID2, DamID2 without overhang, restriction bisulfite) the real constructor and the real demultiplex are executed on read pairs '
             'with symbolic sequences and qualities of arbitrary length: bc/RX/RQ/rS/lh/lq equal the bases/qualities at the declared '
             'positions of the declared mate, the emitted sequence and qualities are the same slice of the same mate starting where '
             'the declared prefix ends, the declared UMI/barcode/primer intervals are disjoint, and every base before the emitted '
-            'stretch is accounted for.',
+            'stretch is accounted for. DamID2_SCA (scattered slices), the bulk Illumina strategy (whole mates emitted), TCHIC (read 2 stays a prefix of mate 2 with its own qualities whatever is trimmed) and CHICTV (read 1 cut at the oligo) have their own postconditions, unbounded in the read contents. The three composite DamID+transcriptome strategies are bounded stand-ins (read 1 of 14/16/17 bases, symbolic contents): one record per mate, records of the accepting sub-demultiplexer, leading T pruning. The phred codec unit of C04 is re-verified here.',
             'declared layout = constructor arguments stored on the strategy object (+ the documented scCHIC skip / DamID keep-'
             'overlap); barcode lookup and phred encoding through their contracts (C03, C04: opaque here); Illumina header of the '
-            'common 7+4 field form; NOT under contract: scattered DamID layouts (DamID2_SCA, DamID2andT*), DamID2_c8_u3_cs2, '
-            'DamID2_NO_OVERHANG, SCCHIC *_cs2 / *_pdt / direct ligation SINGLE_END, the restriction-bisulfite strategy, Hexamer.',
+            'common 7+4 field form; re.sub of a trailing [GA]* run and reverse_complement through assumed contracts (TCHIC); composite strategies only for three read-1 lengths; the unregistered Hexamer class is outside.',
             '5/C02'),
     'C01': ('Loop-body contract on the real DemultiplexingStrategyLoader.demultiplex for an arbitrary well-formed read (pair) and '
             'arbitrary earlier state: an accepted pair is written once, mate m to output file m, as the record text of the strategy\'s '
@@ -148,16 +146,15 @@ CLAIMED = {
             'RR: reason (both the tagged and the raw fallback path), or dropped when no rejects handle exists; never both, never '
             'neither; processed counter = pairs read. Paired/single end, with/without rejects handle, with/without index parser, '
             'with/without maxReadPairs. FastqIterator.__next__ consumes four lines from every file in lock step and stops exactly '
-            'when a header is missing; FastqHandle.write sends record k to file k.',
+            'when a header is missing; FastqHandle.write sends record k to file k (joint files) or appends mate k to the Rk file of its cell (one file per cell) through HandleLimiter, whose write/prune/close contracts (C19) are re-verified here; a pair that is counted has been handed to the strategy, also when the maxReadPairs cut-off ends the loop.',
             'the selected strategy is used through its C02 contract (only NonMultiplexable escapes, one TaggedRecord per mate); '
             'header-fits precondition (C04); FASTQ well-formedness A7; gzip text handles append (A4); one selected strategy; '
-            'one-file-per-cell output is C19; the strategies not covered by C02 (DamID scattered layouts etc.) are not covered here '
-            'either.',
+            'the composite DamID strategies are covered by C02 only as bounded stand-ins.',
             '5/C01, appendix B.6'),
     'C03': ('Unbounded: the resolve step of BarcodeParser.expand, for one observed barcode with ANY number of (distance, barcode) '
             'candidates, assigns iff one candidate is strictly closer than every other one (ties never assigned), to that barcode '
             'with its cell index and distance; the lookup returns whitelist members as (index, barcode, 0), otherwise the expanded '
-            'entry, otherwise (after loading a lazily loaded alias once) nothing. Bounded stand-ins (not counted as proved): '
+            'entry, otherwise (after loading a lazily loaded alias once) nothing; every way an alias leaves the pending state (parse_pending_barcode_file_of_alias, __getitem__, first lookup) parses it and then expands it with the parser\'s distance. Bounded stand-ins (not counted as proved): '
             'hamming_circle yields exactly the Hamming sphere, each string once, exhaustively for lengths <= 2 (thorough: 3) over '
             'ACGTN; the whole correction (real addBarcode, expand, lookup) for small whitelists with near-duplicates and N against '
             'every observed string (symbolic), k = 0, 1, 2.',
@@ -177,7 +174,7 @@ CLAIMED = {
             'arbitrary molecule sizes rest on the specification being a function of per-base counts (bounded check only).',
             '5/C13'),
     'C14': ('Exhaustive (finite domain, executed on the real TAPS class): for every reference context over ACGTN, both strands, '
-            'every observed base (upper and lower case) and truncated contexts at contig ends, position_to_context returns the true '
+            'every observed base (upper and lower case) and every C/G of every 3-base contig whose context is cut by a contig end, position_to_context returns the true '
             'three-base context (reverse complement on the G strand) and the letter z/x/h by CpG/CHG/CHH, upper case exactly when '
             'the conversion C>T / G>A is observed, "." otherwise. TAPSMolecule.obtain_methylation_calls asks the consensus only for '
             'the reference base the chemistry converts on the molecule\'s strand (both TAPS strand conventions), inside the mate-'
@@ -188,29 +185,29 @@ CLAIMED = {
             'character per aligned base, MC/uC/sZ/sz/sX/sx/sH/sh totals) is checked for three symbolic calls and one read with '
             'seven aligned pairs: bounded stand-in, not counted as proved.',
             '5/C14'),
-    'C15': ('Structure of consensus pseudo-reads only. Unbounded proof (loop invariant, any number of covered blocks) that '
+    'C15': ('Unbounded proof (loop invariant, any number of covered blocks) that '
             'Molecule.get_CIGAR turns the covered runs into one M operation per run and one N operation per gap with exactly the '
             'run and gap lengths, and reports the first covered position and the last one as alignment span. Bounded stand-ins (not '
             'counted as proved): generate_partial_reads for 1-3 blocks with symbolic lengths/gaps/max_N_span (sequence, quality and '
             'M lengths agree, reference span = sum of operations, parts split exactly at gaps > max_N_span, every block fetched '
             'once in order); get_CIGAR called again after the coverage changed (no stale memo); create_MD_tag exhaustively for '
-            'strings up to length 3; a linkage scan that every numpy attribute used by the consensus code exists.',
-            'NOT decided: "the base at each position is the most likely call given bases and qualities" (floating point), tag '
-            'copying to pseudo-reads, the --consensus command line; get_aligned_blocks/find_ranges/consecutive_groups and pysam '
+            'strings up to length 3; get_dedup_reads for 1-3 blocks (one record per part, the reference handed to create_MD_tag is the reference of the aligned blocks only and pairs base by base with the consensus); the base-call decision of phredscores_to_base_call over the reals for 1-2 observations of two conflicting bases (unique most likely base, N on a tie of the two best); write_tags_to_psuedoreads (sample, site, UMI, barcode, MI, TF = members + overflow; molecules without a cut site); a linkage scan that every numpy attribute used by the consensus code exists.',
+            'NOT decided: floating-point rounding inside the likelihood computation (the decision is verified over the reals, A3), '
+            'the --consensus command line; get_aligned_blocks/find_ranges/consecutive_groups and pysam '
             'record construction are assumed; extract_stretch_from_dict through its length contract.',
             '5/C15'),
-    'C06': ('Proof that NlaIIIFragment.__eq__ / CHICFragment.__eq__ / Fragment.umi_eq answer True exactly for same cell, strand and '
+    'C06': ('Proof that Fragment.__eq__ (plain fragments: contig included) / NlaIIIFragment.__eq__ / CHICFragment.__eq__ / Fragment.umi_eq answer True exactly for same cell, strand and '
             'cut site (within the assignment radius for CHIC) with UMIs within the allowed Hamming distance (exactly equal UMIs at '
             'distance 0); that Molecule.add_fragment accepts the first fragment, otherwise accepts iff the molecule / some member '
             'matches, adds an accepted fragment once and changes nothing on refusal; that the assignment block of '
-            'MoleculeIterator (pooling 0, exact UMIs, any buffer size: loop invariant) keeps buffered molecules at pairwise '
-            'different (cell, strand, site, UMI) keys and puts a fragment into the molecule of its key or founds it; that '
+            'MoleculeIterator (both pooling methods, any buffer size: loop invariant) keeps buffered molecules at pairwise '
+            'different (cell, strand, site, UMI) keys and puts a fragment into the molecule of its key or founds it (exact UMIs), and places a fragment in exactly one molecule for an arbitrary (non-transitive) acceptance relation (UMI distance > 0); that '
             'Molecule.write_tags gives an arbitrary fragment at an arbitrary rank RC = rank and the duplicate flag iff rank > 0 '
             'whatever flags it carried (so re-tagging is idempotent on these fields), af/TF = molecule size; plus the cut-site '
             'contracts of C09 (fragments of a molecule share the site they are given).',
             'hamming_distance is an uninterpreted function (its N-as-wildcard definition is not under contract); '
-            'umi_counter.most_common tie order for distance > 0 and the pooling_method 1 assignment block are not under contract; '
-            'pysam flag/tag setters through the record stub; Molecule._add_fragment span bookkeeping not under contract.',
+            'umi_counter.most_common tie order for distance > 0 is not under contract; '
+            'pysam flag/tag setters through the record stub; Molecule._add_fragment span bookkeeping and can_be_yielded are shared units with C07.',
             '5/C06'),
     'C08': ('Partial (see DESIGN section 7): the repository-side obligations that make "each molecule is written by exactly one '
             'job, the one whose bin contains its cut site" hold. Loop-body contract on the real run_tagging_task (region mode): an '
